@@ -14,7 +14,7 @@ import Shutter.Model.Wire
 import Shutter.Drive.Events
 
 namespace Shutter.Drive.GnosisSlot
-open Shutter.GnosisSlot Shutter.Wire Shutter.Drive.Events
+open Shutter.GnosisSlot Shutter.Sort Shutter.Wire Shutter.Drive.Events
 
 def tx? (s : String) : Option Tx :=
   match s.splitOn "/" with
